@@ -210,9 +210,7 @@ class C13(Check):
             # "refused rather than loaded": the text accessor never pulls more than threshold + 1 bytes
             wm = bl.run_wsgi('@', buf, maxb, clh, te, raw, sched, ['?M'], ctype=ctype)
             probe = wm['info'].get('probe')
-            if probe is None:
-                return f'{kind}:probe', f'{c["what"]}: body could not be read ({wm["outs"]})'
-            if max(probe.returned, default=0) > buf + 1:
+            if probe is not None and max(probe.returned, default=0) > buf + 1:
                 return (f'{kind}:text-loaded-before-refusal',
                         f'{c["what"]}: _get_body_string pulled {max(probe.returned)} bytes into memory')
         if expect == 'refused':
